@@ -136,7 +136,9 @@ func c10model(c *Ctx, rule string) {
 				var got []oBoxPt
 				arrs := map[*[]oval]bool{}
 				okc := collect(res[0], &got, arrs)
-				if eq, ok := oEqual(res[1], oNil{}); !ok || !eq {
+				if eq, ok := oEqual(res[1], oNil{}); !ok {
+					unk = "nil transformer: the error result is " + showVal(res[1])
+				} else if !eq {
 					msg = "a nil transformer yields a non-nil error"
 				} else if in.tn == "Bounds" {
 					var got0 oval = res[0]
@@ -198,7 +200,10 @@ func c10model(c *Ctx, rule string) {
 				continue
 			}
 			// success run
-			if eq, ok := oEqual(res[1], oNil{}); !ok || !eq {
+			if eq, ok := oEqual(res[1], oNil{}); !ok {
+				unk = "the error result is " + showVal(res[1])
+				break
+			} else if !eq {
 				msg = "every vertex transformed without error but Transform returns an error"
 				break
 			}
